@@ -319,11 +319,12 @@ func (vm *Type) Run(retResult bool) (value.Type, error) {
 				val = vm.fetch(instr.Src0(), instr.Src0Addr(), m, ds)
 			}
 
-			if val.IsNil() {
+			src1T := instr.Src1()
+
+			// loading the temp register is not an assignment
+			if val.IsNil() && src1T != bytecode.AddrTmp {
 				return vm.dumpStack(ctxp, ip, value.ErrNil, val)
 			}
-
-			src1T := instr.Src1()
 
 			switch src1T {
 			case bytecode.AddrLcl:
